@@ -10,7 +10,7 @@ replay    harness/mcp/c11_httpsess_test.go: real StreamableHTTPHandler (+ auth.R
           testing/synctest virtual time
 judge     HttpSessMon.tla (property only -> verdict), HttpSessTrace.tla (strict replay of HttpSess -> drift)
 """
-import glob, json, os, random, re, shutil, tempfile
+import glob, json, os, random, re, shutil, tempfile, time
 from concurrent.futures import ThreadPoolExecutor
 import vlib, graphwalk
 
@@ -197,6 +197,12 @@ def run(tier, seed, replay):
         "client as soon as they are established",
         "TLC exhaustive results are for the stated small constants (2-3 ids, timeout 2-3 ticks, 2 slow POSTs)"]
     out = vlib.outdir(PID)
+    phase, tmark = {}, [time.time()]
+
+    def lap(name):
+        phase[name] = round(time.time() - tmark[0], 1)
+        tmark[0] = time.time()
+    v.cov["phase_s"] = phase
     hist_path = os.path.join(out, "histories.ndjson")
     if replay:
         rep = json.load(open(replay))["replay"]
@@ -216,7 +222,9 @@ def run(tier, seed, replay):
             rows += sim_histories(v, cfg_with("HttpSess_gen.cfg"), 3, False, nsim, 35, seed, "sim.")
             rows += sim_histories(v, cfg_with("HttpSess_gen.cfg", T=0), 0, False, max(20, nsim // 10), 25, seed + 1, "sim0.")
             rows += sim_histories(v, cfg_with("HttpSess_gen.cfg", T=2, MaxSess=2), 2, False, max(40, nsim // 4), 40, seed + 2, "sim2.")
+            lap("generate")
             fut.result()
+            lap("model_check_wait")
     vlib.write_ndjson(hist_path, rows)
     by_id = {r["id"]: r for r in rows}
     v.cov["histories"] = len(rows)
@@ -228,6 +236,7 @@ def run(tier, seed, replay):
     rc_go, gout, wall = vlib.go_test("mcp", "^TestVerif_C11$", HARNESS,
                                      env={"VERIF_IN": hist_path, "VERIF_OUT": obs, "VERIF_SEED": seed}, timeout=1200)
     vlib.go_must_build(rc_go, gout, PID)
+    lap("replay")
     obs_rows = vlib.read_ndjson(obs) if os.path.exists(obs) else []
     traces = vlib.split_traces(obs_rows)
     crashed = None
@@ -276,6 +285,7 @@ def run(tier, seed, replay):
     # 4. monitor: the verdict
     fails, mres = vlib.run_monitor("HttpSessMon", "HttpSessMon.cfg", obs, timeout=1800, heap_gb=8)
     v.add_tlc("HttpSessMon", mres)
+    lap("monitor")
     bad_traces = set()
     for f in fails:
         tid, start, trows = vlib.trace_of_line(traces, f["line"])
@@ -333,6 +343,7 @@ def run(tier, seed, replay):
             idx = [i for i, (t2, _) in enumerate(cur) if t2 == tid][0]
             strict_ok += idx
             cur = cur[idx + 1:]
+    lap("strict")
     v.cov["traces_strictly_explained"] = strict_ok
     v.cov["exhaustive"] = False
     return v.finish()
